@@ -103,11 +103,7 @@ def handleTree (srcHex dump : String) : String :=
     let seqOk := ent == Spec.nodes t && Spec.balanced evs []
     let model := verdict acc.n ent.length nils seqOk acc.panics acc.oob acc.unnested acc.sum
     let spec := verdict acc.n acc.n 0 true 0 0 0 acc.sum
-    let devs := (if nils > 0 then ["walk_typed_nil"] else [])
-      ++ (if acc.emptySeq then ["idx_empty_sequence"] else [])
-      ++ (if acc.emptyCase then ["idx_empty_case"] else [])
-      ++ (if acc.emptyProg then ["idx_empty_program"] else [])
-      ++ (if acc.switchOpen then ["switch_missing_brace"] else [])
+    let devs : List String := []
     model ++ " " ++ spec ++ " " ++ (if devs.isEmpty then "-" else ",".intercalate devs)
   | _ => "bad-dump bad-dump -"
 
